@@ -98,7 +98,7 @@ func r12_1(c *Ctx) {
 	}
 	// discovered: constants a consumer compares a Backoff field for equality with
 	for _, fn := range P.Funcs {
-		eachInstr(fn, func(in ssa.Instruction) {
+		eachInstrDeep(fn, func(in ssa.Instruction) {
 			b, ok := in.(*ssa.BinOp)
 			if !ok || (b.Op != token.EQL && b.Op != token.NEQ) {
 				return
@@ -136,7 +136,7 @@ func r12_1(c *Ctx) {
 			continue
 		}
 		writes := false
-		eachInstr(fn, func(in ssa.Instruction) {
+		eachInstrDeep(fn, func(in ssa.Instruction) {
 			if st, ok := in.(*ssa.Store); ok {
 				if o, _, _, ok := fieldSel(st.Addr); ok && o == "Backoff" {
 					writes = true
@@ -239,7 +239,7 @@ func findConnect(P *Program) *connectParts {
 		return nil
 	}
 	cp := &connectParts{fn: fn}
-	eachInstr(fn, func(in ssa.Instruction) {
+	eachInstrDeep(fn, func(in ssa.Instruction) {
 		if call, ok := isModCall(in, "(*Connection).doConnect"); ok {
 			cp.doConnect = call
 		}
@@ -304,7 +304,7 @@ func r12_3(c *Ctx) {
 	fn := cp.fn
 	// exactly one next() call, in no loop other than the retry loop
 	nNext := 0
-	eachInstr(fn, func(in ssa.Instruction) {
+	eachInstrDeep(fn, func(in ssa.Instruction) {
 		if _, ok := isModCall(in, "(*backoffController).next"); ok {
 			nNext++
 		}
@@ -372,7 +372,7 @@ func r12_4(c *Ctx) {
 	setRetry := fn.Params[2]
 	var validator *ssa.Call
 	var read *ssa.Call
-	eachInstr(fn, func(in ssa.Instruction) {
+	eachInstrDeep(fn, func(in ssa.Instruction) {
 		if call, ok := in.(*ssa.Call); ok && call.Call.StaticCallee() == nil && !call.Call.IsInvoke() {
 			if _, ok := isFieldLoad(call.Call.Value, "Client", "ResponseValidator"); ok {
 				validator = call
@@ -452,7 +452,7 @@ func r12_5(c *Ctx) {
 	cb := mc.Fn.(*ssa.Function)
 	// cb(r int64): calls setRetry(Duration(r) * 1e6)
 	good := false
-	eachInstr(cb, func(in ssa.Instruction) {
+	eachInstrDeep(cb, func(in ssa.Instruction) {
 		call, ok := in.(*ssa.Call)
 		if !ok || call.Call.StaticCallee() != nil || len(call.Call.Args) != 1 {
 			return
@@ -487,7 +487,7 @@ func r12_5(c *Ctx) {
 	}
 	d := rs.Params[1]
 	okStore, okElse, other := false, false, false
-	eachInstr(rs, func(in ssa.Instruction) {
+	eachInstrDeep(rs, func(in ssa.Instruction) {
 		st, ok := in.(*ssa.Store)
 		if !ok {
 			return
@@ -525,7 +525,7 @@ func r12_6(c *Ctx) {
 	var incs []*ssa.Store
 	var growStore *ssa.Store
 	var nextIv, growIv *ssa.Call
-	eachInstr(nx, func(in ssa.Instruction) {
+	eachInstrDeep(nx, func(in ssa.Instruction) {
 		if st, ok := in.(*ssa.Store); ok {
 			if _, ok := isFieldSel(st.Addr, "backoffController", "numRetries"); ok {
 				incs = append(incs, st)
@@ -724,7 +724,7 @@ func r12_6(c *Ctx) {
 	}
 	// reset()
 	var zeroCount, startNow bool
-	eachInstr(rs, func(in ssa.Instruction) {
+	eachInstrDeep(rs, func(in ssa.Instruction) {
 		st, ok := in.(*ssa.Store)
 		if !ok {
 			return
